@@ -110,7 +110,7 @@ class HarnessError(Exception):
 
 
 def load_known(path=None):
-    path = path or os.path.join(VERIF_DIR, "known_findings.json")
+    path = path or os.environ.get("VERIF_KNOWN") or os.path.join(VERIF_DIR, "known_findings.json")
     if not os.path.exists(path):
         return []
     with open(path) as f:
